@@ -5,6 +5,16 @@ HERE = os.path.dirname(os.path.dirname(os.path.abspath(__file__)))
 sys.path.insert(0, HERE)
 os.environ.setdefault("VERIF_REPO", "/repo")
 props = [json.loads(l) for l in open(os.path.join(HERE, "properties.jsonl"))]
+TECH = {
+    "C02": "runtime monitoring: post-condition oracle computed from input and output alone (lattice / half-cell / idempotence / shortest image), history monitor on in-place deformed cells, in-situ contract on every call site during all other workloads and the repository's tests",
+    "C07": "runtime monitoring: oracle-free relational (symmetry-group) monitors on the repository's sample trajectories and generated systems, transformations also applied in place on the caller's objects",
+    "C08": "runtime monitoring: three independent special-function oracles at interpolation nodes + measured band-limit structure (Lebesgue-constant bound for all angles), history monitors on returned tables",
+    "C12": "runtime monitoring: symbolic-derivative oracle (sympy -> mpmath, 40 digits) on generated arguments, call families sharing parameters, measured polynomial structure",
+    "C18": "runtime monitoring: state monitors (bit-exact digests of every reachable input array around every call), repeat / same-object / fresh-interpreter-replay / in-place-update / layout-invariance relations over random programs of ~50 entry points, files parsed at their written precision",
+}
+DEFAULT_TECH = ("runtime monitoring: independent reference-model + relational monitors on generated workloads (hostile in-memory representations, "
+                "systems far beyond the usual size), history monitors (prior call with one argument changed, one object asked again, caller-owned "
+                "arrays updated in place, file rewritten under the same name), in-situ contracts on shared helpers")
 checks, na = [], []
 for p in props:
     pid = p["id"]
@@ -27,7 +37,7 @@ for p in props:
             "design_ref": f"DESIGN.md section 3, {pid}",
         },
         "level_note": m.get("note", "Trusted: numpy/scipy/mpmath/sympy as used by the reference models; float64 tolerances of DESIGN.md R4; generators cover only the classes listed in the evidence file."),
-        "technique": m.get("technique", "runtime monitoring: reference-model + relational monitors on generated workloads"),
+        "technique": m.get("technique", TECH.get(pid, DEFAULT_TECH)),
     })
 man = {
     "version": 1,
